@@ -53,7 +53,7 @@ func c06(r *hx.Run) {
 	fx.Quiet()
 	client, v := stdClient()
 	delta := v.P.MaxOperationTimeDelta
-	r.Rule = "for every history of <=3 (thorough: <=4 over a sub-alphabet) anchored operations (legitimate alphabet, published and unpublished, non-monotone coordinates) x every cut time T in {pre-epoch, 0..maxTime+1} x every version id present or unknown x every single later-anchored extension (placed in the store, and passed by the caller through WithAdditionalOperations before and after the version option; every cut also with unset (nil) options around the version option): Resolve(history, WithVersionTime/WithVersionID) on the real processor must equal Resolve over the truncated history on the real processor (metamorphic) and the reference model; unknown version id / empty truncation must be an error. The same cuts go through the REST resolve handler (versionId / versionTime / both) for two histories, addressed by the short-form and by the long-form DID: status and document must agree with the processor view (an unknown version of an anchored DID is an error in both forms). Non-trivial: the cut removes at least one and keeps at least one operation."
+	r.Rule = "for every history of <=3 (thorough: <=4 over a sub-alphabet) anchored operations (legitimate alphabet, published and unpublished, non-monotone coordinates) x every cut time T in {pre-epoch, 0..maxTime+1} x every version id present or unknown x every single later-anchored extension (placed in the store, and passed by the caller through WithAdditionalOperations before and after the version option; every cut also with unset (nil) options around the version option; every version-id cut also with each published operation of the history moved from the store into WithAdditionalOperations): Resolve(history, WithVersionTime/WithVersionID) on the real processor must equal Resolve over the truncated history on the real processor (metamorphic) and the reference model; unknown version id / empty truncation must be an error. The same cuts go through the REST resolve handler (versionId / versionTime / both) for two histories, addressed by the short-form and by the long-form DID: status and document must agree with the processor view (an unknown version of an anchored DID is an error in both forms). Non-trivial: the cut removes at least one and keeps at least one operation."
 	pool := fx.NewPool(fx.Ed25519, fx.SHA256, "ok")
 	alpha := []string{"C", "C~h", "U01", "U01b", "U12", "U01~w", "U01~p", "R01", "R12", "V01", "D0", "D1", "Fc(U01)", "U10"}
 	grid := []Coord{{1, 0}, {1, 2}, {2, 0}, {2, 1}, {3, 0}}
@@ -219,6 +219,30 @@ func c06(r *hx.Run) {
 					r.Violation("version-id:"+diffFields(got.R, want.R), caseID,
 						fmt.Sprintf("history %v resolved at versionId %s\n  got      : %s pub=[%s]\n  truncated: %s pub=[%s]\n  model    : %s", placedDesc(placed), V, got.R, got.Pub, want.R, want.Pub, model),
 						map[string]interface{}{"history": placedDesc(placed), "V": V})
+				}
+				// the same history with one of its published operations delivered by the caller (WithAdditionalOperations) instead of
+				// by the store: the historical view is the same
+				if found && len(placed) > 1 {
+					for mi, moved := range placed {
+						if !moved.Published {
+							continue
+						}
+						rest := append(append([]fx.Placed{}, placed[:mi]...), placed[mi+1:]...)
+						hasPub := false
+						for _, pl := range rest {
+							hasPub = hasPub || pl.Published
+						}
+						if !hasPub {
+							continue // the store must know the DID
+						}
+						add := document.WithAdditionalOperations([]*operation.AnchoredOperation{moved.Anchored(pool.Suffix)})
+						got4 := projectHist(ResolveImpl(client, pool.Suffix, rest, add, document.WithVersionID(V)))
+						r.Eval()
+						if got4 != got {
+							r.Violation("version-id-additional-ops-earlier:"+diffFields(got4.R, got.R), fmt.Sprintf("%s|moved=%d", caseID, mi),
+								fmt.Sprintf("history %v at versionId %s changes when %s is delivered as an additional operation instead of by the store\n  store only : %s pub=[%s]\n  with moved : %s pub=[%s]", placedDesc(placed), V, moved.Op.ID, got.R, got.Pub, got4.R, got4.Pub), nil)
+						}
+					}
 				}
 				if found {
 					for _, x := range ext {
